@@ -604,6 +604,14 @@ class PfWorld:
                 else:
                     img = stubocr.paint_text_page(self.img_spec(p)) if mode == 'layout' else stubocr.paint_page(self.img_spec(p), cfg['nchars'])
                 cv2.imwrite(os.path.join(self.in_img, p['id'] + p.get('ext', '.png')), img)
+                if p.get('sidecar'):
+                    # a ground-truth note next to the scan: the driver takes every non-xml/logits file for an
+                    # image, fails on it, reports it and carries on
+                    with open(os.path.join(self.in_img, p['id'] + '.txt'), 'w') as f:
+                        f.write('not an image\n')
+            if plan.get('input_subfolder'):
+                os.makedirs(os.path.join(self.in_img, 'rejected'))
+                cv2.imwrite(os.path.join(self.in_img, 'rejected', 'zz-sub.png'), np.zeros((40, 60, 3), dtype=np.uint8))
         if mode in ('ocr', 'crop'):
             self.in_xml = os.path.join(self.root, 'in_xml')
             os.makedirs(self.in_xml)
